@@ -167,6 +167,55 @@ def strip(e):
     return e
 
 
+# ---------------------------------------------------------------- un-interning
+
+def _res_op(o, callees):
+    if isinstance(o, dict) and isinstance(o.get("fn"), int):
+        o["fn"] = callees[o["fn"]]
+
+
+def resolve_interned(fn, cj):
+    """Replace interned callee / file indices of one function's facts by the shared objects."""
+    callees = cj.get("callees")
+    files = cj.get("files")
+    if callees is None:
+        fn["_resolved"] = True
+        return
+    sp = fn.get("span")
+    if sp and isinstance(sp.get("file"), int):
+        sp["file"] = files[sp["file"]]
+
+    def body(m):
+        for d in m.get("debug", []):
+            _res_op(d.get("value"), callees)
+        for b in m["blocks"]:
+            sp = b.get("span")
+            if sp and isinstance(sp.get("file"), int):
+                sp["file"] = files[sp["file"]]
+            for st in b["stmts"]:
+                rv = st.get("rv")
+                if rv:
+                    for key in ("op", "a", "b"):
+                        _res_op(rv.get(key), callees)
+                    for o in rv.get("ops", ()):
+                        _res_op(o, callees)
+            t = b["term"]
+            f = t.get("func")
+            if isinstance(f, int):
+                t["func"] = callees[f]
+            elif isinstance(f, dict) and f.get("indirect"):
+                _res_op(f.get("op"), callees)
+            for a in t.get("args", ()):
+                _res_op(a, callees)
+            for key in ("discr", "cond", "len", "index", "a", "b"):
+                _res_op(t.get(key), callees)
+        for pm in m.get("promoted", ()):
+            body(pm)
+    if "mir" in fn:
+        body(fn["mir"])
+    fn["_resolved"] = True
+
+
 # ---------------------------------------------------------------- body
 
 class Body:
@@ -175,6 +224,8 @@ class Body:
         self.crate = crate
         self.path = fn["path"]
         m = fn["mir"]
+        if crate is not None and not fn.get("_resolved"):
+            resolve_interned(fn, crate.j)
         self.blocks = m["blocks"]
         self.locals = m["locals"]
         self.arg_count = m["arg_count"]
@@ -434,6 +485,15 @@ class Body:
         return None
 
     def expr_local(self, l, seen=None):
+        c = self.__dict__.setdefault("_ecache", {})
+        if l in c and (not seen or l not in seen):
+            return c[l]
+        r = self._expr_local(l, seen)
+        if not seen or l not in seen:
+            c[l] = r
+        return r
+
+    def _expr_local(self, l, seen=None):
         seen = seen or frozenset()
         if l in seen:
             return mk("local", l)
@@ -476,7 +536,7 @@ class Body:
 
     def expr_call(self, t, seen=None):
         f = t["func"]
-        args = [self.expr_op(a, seen) for a in t["args"]]
+        args = tuple(self.expr_op(a, seen) for a in t["args"])
         if f.get("indirect"):
             return mk("icall", self.expr_op(f["op"], seen), args)
         return mk("call", f["path"], args, f.get("resolved"), tuple(f.get("args", ())))
@@ -598,7 +658,7 @@ class Body:
         if k == "discr":
             return mk("discr", self.expr_place(rv["place"], seen))
         if k == "agg":
-            ops = [self.expr_op(o, seen) for o in rv["ops"]]
+            ops = tuple(self.expr_op(o, seen) for o in rv["ops"])
             a = rv["agg"]
             if a == "adt":
                 names = rv["fields"]
@@ -845,10 +905,27 @@ def show(e, depth=0):  # noqa: F811  (extend with 'raw')
 
 # ---------------------------------------------------------------- normalisation
 
+_NORM_CACHE = {}
+
+
 def norm(e):
-    """Deep-strip references, dereferences and reborrows everywhere in e."""
+    """Deep-strip references, dereferences and reborrows everywhere in e (identity-cached)."""
     if not isinstance(e, tuple) or not e:
         return e
+    if isinstance(e, E):
+        hit = _NORM_CACHE.get(id(e))
+        if hit is not None and hit[0] is e:
+            return hit[1]
+        r = _norm(e)
+        if len(_NORM_CACHE) > 2000000:
+            _NORM_CACHE.clear()
+        _NORM_CACHE[id(e)] = (e, r)
+        _NORM_CACHE[id(r)] = (r, r)
+        return r
+    return _norm(e)
+
+
+def _norm(e):
     if not isinstance(e, E):
         # plain tuple such as (name, expr) pairs inside agg
         return tuple(norm(x) if isinstance(x, tuple) else x for x in e)
